@@ -22,6 +22,7 @@
 #include "vx_sched.h"
 
 #include "cimba.h"
+#include "cmb_condition.h"
 #include "cmb_event.h"
 #include "cmb_logger.h"
 #include "cmb_process.h"
@@ -79,9 +80,33 @@ static char g_sig[200];
 /* ---- trial content */
 struct model {
     struct cmb_process p[3];
+    struct cmb_process watcher;
     struct cmb_resource r;
+    struct cmb_condition c;     /* observes the resource's guard: observer tags come from a library-wide pool */
     uint64_t acc;
 };
+
+static bool res_free(const struct cmb_condition *c, const struct cmb_process *pp, const void *ctx)
+{
+    (void)c;
+    (void)pp;
+    const struct model *m = ctx;
+    return cmb_resource_available(&((struct model *)m)->r) > 0;
+}
+
+static void *watcher_proc(struct cmb_process *me, void *ctx)
+{
+    (void)me;
+    struct model *m = ctx;
+    for (int k = 0; k < 2; k++) {
+        if (cmb_condition_wait(&m->c, res_free, m) != CMB_PROCESS_SUCCESS) {
+            break;
+        }
+        m->acc = vx_mix(m->acc, 7777 + (uint64_t)(cmb_time() * 8));
+        cmb_process_hold(1.0);
+    }
+    return NULL;
+}
 
 static void *worker_proc(struct cmb_process *me, void *ctx)
 {
@@ -103,11 +128,15 @@ static uint64_t run_model(struct model *m, uint64_t seed, bool leave_blocked)
     cmb_random_initialize(seed);
     cmb_event_queue_initialize(0.0);
     cmb_resource_initialize(&m->r, "R");
+    cmb_condition_initialize(&m->c, "C");
+    cmb_condition_subscribe(&m->c, &m->r.guard);
     m->acc = 0;
     for (int k = 0; k < 3; k++) {
         cmb_process_initialize(&m->p[k], "p", worker_proc, m, (int64_t)(k % 2));
         cmb_process_start(&m->p[k]);
     }
+    cmb_process_initialize(&m->watcher, "w", watcher_proc, m, 0);
+    cmb_process_start(&m->watcher);
     int guard = 0;
     while (guard++ < (leave_blocked ? 9 : 500) && cmb_event_execute_next()) {
     }
@@ -123,7 +152,20 @@ static uint64_t run_model(struct model *m, uint64_t seed, bool leave_blocked)
             cmb_process_terminate(&m->p[k]);
         }
     }
+    if (cmb_process_status(&m->watcher) == CMB_PROCESS_FINISHED || leave_blocked) {
+        if (m->watcher.core.stack) {
+            free(m->watcher.core.stack);
+            m->watcher.core.stack = NULL;
+        }
+    }
+    else {
+        cmb_process_terminate(&m->watcher);
+    }
+    if (!leave_blocked) {
+        m->acc = vx_mix(m->acc, (uint64_t)cmb_condition_unsubscribe(&m->c, &m->r.guard));
+    }
     m->r.holder = NULL;
+    cmb_condition_terminate(&m->c);
     cmb_resource_terminate(&m->r);
     cmb_event_queue_terminate();
     return m->acc;
@@ -257,16 +299,9 @@ static void run_one(void)
     const int tc = vx_choose_free(5, "trial-count");
     T = tc == 0 ? 6 : tc == 1 ? 1 : tc == 2 ? (W > 1 ? W - 1 : 2) : tc == 3 ? W : W + 2;
     (void)TS_;
-    /* sequential reference on a fresh thread */
-    fill(refarr);
-    memset(exec_count, 0, sizeof exec_count);
-    wrong_element = 0;
-    cur_base = refarr;
-    in_experiment = false;
-    pthread_t th;
-    __real_pthread_create(&th, NULL, seq_thread, NULL);
-    __real_pthread_join(th, NULL);
-    /* the real thing */
+    /* the real thing first: whatever its worker threads leave behind when they exit (they run the library's
+     * thread clean-up) is then met by the sequential reference below and by the next execution's experiment -
+     * a program may run several experiments and use the library in between */
     fill(arr);
     memset(exec_count, 0, sizeof exec_count);
     wrong_element = 0;
@@ -277,6 +312,20 @@ static void run_one(void)
     in_experiment = true;
     cimba_run_experiment(arr, (uint64_t)T, SZ, trial_func);
     in_experiment = false;
+    static int exec_saved[16], ran_saved[16];
+    const int wrong_saved = wrong_element;
+    memcpy(exec_saved, exec_count, sizeof exec_saved);
+    memcpy(ran_saved, ran_on, sizeof ran_saved);
+    /* sequential reference on a fresh thread */
+    fill(refarr);
+    cur_base = refarr;
+    pthread_t th;
+    __real_pthread_create(&th, NULL, seq_thread, NULL);
+    __real_pthread_join(th, NULL);
+    memcpy(exec_count, exec_saved, sizeof exec_saved);
+    memcpy(ran_on, ran_saved, sizeof ran_saved);
+    wrong_element = wrong_saved;
+    cur_base = arr;
     __builtin_ia32_ldmxcsr(0x1f80); /* cimba_run_experiment unmasks FP exceptions for the caller */
     vx_transitions((uint64_t)T);
     if (wrong_element) {
